@@ -68,13 +68,14 @@ var baseCommands = []string{"/a/b", "/", "/a//b", "/é/日本", "/a b/c"}
 
 // envelopeParts is a decoded envelope that can be edited and re-assembled.
 type envelopeParts struct {
-	typ     string
-	outer   string
-	sig     ipld.Node
-	hdr     ipld.Node // nil = absent
-	tag     string
-	payload map[string]ipld.Node
-	extra   string
+	typ        string
+	outer      string
+	sig        ipld.Node
+	hdr        ipld.Node // nil = absent
+	tag        string
+	payload    map[string]ipld.Node
+	rawPayload ipld.Node
+	extra      string
 }
 
 func (e *envelopeParts) clone() *envelopeParts {
@@ -101,7 +102,11 @@ func mapNode(m map[string]ipld.Node) ipld.Node {
 }
 
 func (e *envelopeParts) sigPayload() ipld.Node {
-	m := map[string]ipld.Node{e.tag: mapNode(e.payload)}
+	var pl ipld.Node = mapNode(e.payload)
+	if e.rawPayload != nil {
+		pl = e.rawPayload // the value under the tag is not a map of fields
+	}
+	m := map[string]ipld.Node{e.tag: pl}
 	if e.hdr != nil {
 		m["h"] = e.hdr
 	}
@@ -298,7 +303,7 @@ func repsOf(c envCase) int {
 		if op.Op == "sethdr" && op.A == "foreign" && n < foreignHeaders {
 			n = foreignHeaders
 		}
-		if op.Op == "settag" && op.A == "ucan/x" && n < 8 {
+		if (op.Op == "settag" && op.A == "ucan/x" || op.Op == "plkind") && n < 8 {
 			n = 8
 		}
 		if op.Op != "set" {
@@ -491,6 +496,10 @@ func (ew *envWorld) apply(e *envelopeParts, op envOp) error {
 		case "notbytes":
 			e.hdr = basicnode.NewString("h")
 		}
+	case "plkind":
+		reps := []ipld.Node{basicnode.NewString("iss"), basicnode.NewInt(1), basicnode.NewBytes([]byte{1, 2}), basicnode.NewBool(true), datamodel.Null,
+			listOf(basicnode.NewString("iss")), basicnode.NewFloat(1.5), linkNode(ew.cids[0])}
+		e.rawPayload = reps[ew.rot%len(reps)]
 	case "settag":
 		switch op.A {
 		case "dlg":
